@@ -158,7 +158,7 @@ func init() {
 	vc.Register(&vc.Check{
 		ID:    "C17",
 		Level: "exploration",
-		Rule: "single packets: data type 0..15 x sub-package mark 0..15 x PT {0,6,7,19,98,99,127} x M x attr byte {81,00,FF,41} x payload {0,1,2,949,950,951,65535} with rotating SIM/channel/sequence/timestamp/interval menus; " +
+		Rule: "single packets: data type 0..15 x sub-package mark 0..15 x PT {0,6,7,19,98,99,127} x M x attr byte {81,00,FF,41} x payload {0,1,2,949,950,951,65535} with rotating SIM/channel/sequence/timestamp/interval menus; two-packet streams whose SIM numbers differ in exactly one BCD byte (3 bases x 6 positions x 5 values, both orders); " +
 			"streams: all sequences of 1..2 (thorough 1..3) packets from a 29-packet menu, buffers of 70..141 packets (more than 65535 bytes behind a header, the remainder modulo 65536 below / on / above the payload length), each decoded from the front with a fresh and with one reused Packet, and EVERY prefix of every stream up to 400 bytes (longer: every cut within 3 bytes of a structural boundary); " +
 			"arbitrary strings: all strings of length <=5 over {30,31,63,64,00,FF}, all 4-byte heads over that alphabet followed by header-like tails at lengths 15..30. Non-trivial = stream holds >=2 packets or is cut inside a packet",
 		Assumptions: []string{"reference reader harness/ref/rtp.go written from JT/T 1078 table 19; reserved data types 5..15 laid out like audio as the property states"},
@@ -224,6 +224,23 @@ func c17Run(ctx *vc.Ctx, rep *vc.Report) {
 		if ctx.Expired() || rep.TooMany() {
 			rep.Truncated = ctx.Expired()
 			return
+		}
+	}
+	// two packets in one stream whose SIM numbers differ in exactly one BCD byte (either order): every packet carries
+	// its own SIM, whatever was decoded before
+	for _, base := range sims {
+		for j := 0; j < 6; j++ {
+			for _, v := range []byte{0x00, 0x01, 0x10, 0x64, 0x99} {
+				if base[j] == v {
+					continue
+				}
+				other := append([]byte(nil), base...)
+				other[j] = v
+				a := ref.RTP{Attr: 0x81, MPT: 98, Seq: 1, SimBCD: base, Channel: 1, DataType: 3, Time: 5, Payload: []byte{1, 2}}.Encode()
+				b := ref.RTP{Attr: 0x81, MPT: 98, Seq: 2, SimBCD: other, Channel: 1, DataType: 0, Time: 6, IFrame: 1, Frame: 2, Payload: []byte{3}}.Encode()
+				try(append(append([]byte(nil), a...), b...), "sim-pair", true)
+				try(append(append([]byte(nil), b...), a...), "sim-pair", true)
+			}
 		}
 	}
 	// streams and all their prefixes
